@@ -428,6 +428,8 @@ class PDFPageInterpreter:
         self.ncs: Optional[PDFColorSpace] = None
         if self.csmap:
             self.scs = self.ncs = next(iter(self.csmap.values()))
+        # inline images of this content stream are numbered in order
+        self.inline_image_count = 0
 
     def push(self, obj: PDFStackT) -> None:
         self.argstack.append(obj)
@@ -1175,7 +1177,9 @@ class PDFPageInterpreter:
     def do_EI(self, obj: PDFStackT) -> None:
         """End inline image object"""
         if isinstance(obj, PDFStream) and "W" in obj and "H" in obj:
-            iobjid = str(id(obj))
+            # A name that depends on the document only (not on a memory address)
+            iobjid = "inline%d" % self.inline_image_count
+            self.inline_image_count += 1
             self.device.begin_figure(iobjid, (0, 0, 1, 1), MATRIX_IDENTITY)
             self.device.render_image(iobjid, obj)
             self.device.end_figure(iobjid)
